@@ -16,6 +16,16 @@ CLAIMED = {
         "(contracts/tab_spec.py, from the docstrings). Rule bodies are not executed (errors of the selected rule are outside C04).",
    technique="contract on the dispatch layer (exists-unique selected rule) decided by exhaustive enumeration of the finite lattice against the live plum table",
    engine="TAB"),
+ "C19": dict(
+   category="proof",
+   text="Decided through its cause, not by measuring memory: (a) for every structured kind and entry point with a structural rule, "
+        "the rule selected - algorithm omitted and every admissible explicit algorithm - is the structural one (finite lattice, "
+        "complete enumeration against the live plum table).",
+   design_ref="4.19",
+   note="No memory is measured. Trusted: plum resolver (validated point by point), the STRUCTURAL table of contracts/tab_spec.py "
+        "(from the statement of C19), NumPy primitives allocate O(result).",
+   technique="selection contract on the dispatch layer decided by exhaustive enumeration; effect contracts on rule bodies",
+   engine="TAB"),
 }
 
 NOT_YET = "check not built yet in this session (framework under construction; see DESIGN.md section 10 for the order of work)"
